@@ -40,7 +40,7 @@ fn involved_tids() -> Vec<i32> {
     v
 }
 
-const W_HOLDS: [&str; 3] = ["w.after_wait", "w.after_read", "w.before_dispatch"];
+const W_HOLDS: [&str; 4] = ["w.after_wait", "w.after_read", "w.before_dispatch", "w.in_dispatch"];
 const C_HOLDS: [&str; 4] = ["c.after_setkick", "c.after_state", "c.after_ctl", "c.after_dropkick"];
 
 impl Ctl {
